@@ -266,6 +266,7 @@ fn sigmf<T: S14 + rustradio::sigmf::Type>(ty: Ty, bytes: &[u8], archive: bool, o
         if malform == 3 {
             members.push((format!("{dir}capture.sigmf-data"), bytes.to_vec()));
         }
+        let first_extra = members.len();
         for i in 0..extras {
             members.push((format!("{dir}unrelated{i}.txt"), vec![b'x'; 100 + 413 * i as usize]));
         }
@@ -277,10 +278,45 @@ fn sigmf<T: S14 + rustradio::sigmf::Type>(ty: Ty, bytes: &[u8], archive: bool, o
         for i in &idx {
             let (name, data) = &members[*i];
             let mut h = tar::Header::new_gnu();
-            h.set_size(data.len() as u64);
             h.set_mode(0o644);
-            h.set_cksum();
-            tb.append_data(&mut h, name, &data[..]).expect("tar append");
+            // unrelated members are not all plain files: what `tar c` of a working directory or
+            // `git archive` produce also holds directories, links, fifos and pax global headers
+            let kind = if *i >= first_extra { (bytes.len() + *i) % 6 } else { 0 };
+            match kind {
+                1 => {
+                    ctx.class("archive-with-unrelated-directory");
+                    h.set_entry_type(tar::EntryType::Directory);
+                    h.set_size(0);
+                    h.set_cksum();
+                    tb.append_data(&mut h, format!("{name}.d/"), &[][..]).expect("tar append");
+                }
+                2 | 3 => {
+                    ctx.class("archive-with-unrelated-link");
+                    h.set_entry_type(if kind == 2 { tar::EntryType::Symlink } else { tar::EntryType::Link });
+                    h.set_size(0);
+                    tb.append_link(&mut h, name, format!("{dir}capture.sigmf-meta")).expect("tar append");
+                }
+                4 => {
+                    ctx.class("archive-with-pax-global-header");
+                    let rec = b"52 comment=0123456789abcdef0123456789abcdef01234567\n";
+                    h.set_entry_type(tar::EntryType::XGlobalHeader);
+                    h.set_size(rec.len() as u64);
+                    h.set_cksum();
+                    tb.append_data(&mut h, "pax_global_header", &rec[..]).expect("tar append");
+                }
+                5 => {
+                    ctx.class("archive-with-unrelated-fifo");
+                    h.set_entry_type(tar::EntryType::Fifo);
+                    h.set_size(0);
+                    h.set_cksum();
+                    tb.append_data(&mut h, name, &[][..]).expect("tar append");
+                }
+                _ => {
+                    h.set_size(data.len() as u64);
+                    h.set_cksum();
+                    tb.append_data(&mut h, name, &data[..]).expect("tar append");
+                }
+            }
         }
         tb.finish().expect("tar finish");
         if idx.iter().position(|i| *i == 0) > idx.iter().position(|i| *i == 1) || extras > 0 {
@@ -550,6 +586,11 @@ fn tcp<T: S14>(ty: Ty, bytes: &[u8], chunks: &[u16], pages: u8, ctx: &mut Ctx) {
     let mut pos = 0usize;
     let mut ci = 0usize;
     let mut split_inside = false;
+    // one case in four: the reader of the source's output lags
+    let stalled = chunks.first().map(|c| c % 4 == 0).unwrap_or(false);
+    if stalled {
+        ctx.class("tcp: lagging reader (1-3 free output slots)");
+    }
     let res = catch(|| -> Result<(), String> {
         // at most ~64 chunks per case (each one costs a /proc/net/tcp poll)
         let min_chunk = (bytes.len() / 64).max(1);
@@ -578,6 +619,31 @@ fn tcp<T: S14>(ty: Ty, bytes: &[u8], chunks: &[u16], pages: u8, ctx: &mut Ctx) {
             // only while its output still has room and bytes are certainly queued
             let mut remaining = k;
             let mut guard = 0;
+            if stalled {
+                // a reader that lags: the output is left with 1-3 free slots (or drained) before
+                // each call; calls are made only while bytes are certainly queued
+                let mut calls = 0usize;
+                while client_rx_queue(client_port, port).unwrap_or(0) > 0 && calls < 400 {
+                    calls += 1;
+                    let cap = outp.capacity();
+                    let free = cap - outp.available();
+                    let target = if calls % 3 == 0 { cap } else { 1 + (calls + ci) % 3 };
+                    if free < target {
+                        outp.drain(target - free);
+                    }
+                    let free_before = cap - outp.available();
+                    let avail_before = outp.available();
+                    match src.work() {
+                        Ok(rustradio::block::BlockRet::EOF) => return Err("EOF while the connection is open and data is queued".into()),
+                        Ok(rustradio::block::BlockRet::WaitForStream(_, need)) if free_before >= need && need > 0 && outp.available() == avail_before => {
+                            return Err(format!("misdirected wait: bytes are queued on the connection, the output has {free_before} free slots, and the source reports a wait for {need} free slot(s) on it without reading anything"));
+                        }
+                        Ok(_) => {}
+                        Err(e) => return Err(format!("work: {e}")),
+                    }
+                }
+                remaining = 0;
+            }
             while remaining > 0 {
                 outp.drain(usize::MAX);
                 let before = outp.available();
@@ -592,6 +658,19 @@ fn tcp<T: S14>(ty: Ty, bytes: &[u8], chunks: &[u16], pages: u8, ctx: &mut Ctx) {
                 guard += 1;
                 if guard > 1000 {
                     return Err("no progress".into());
+                }
+            }
+        }
+        if stalled {
+            // whatever is still queued is read with the output drained
+            let mut calls = 0;
+            while client_rx_queue(client_port, port).unwrap_or(0) > 0 && calls < 2000 {
+                calls += 1;
+                outp.drain(usize::MAX);
+                match src.work() {
+                    Ok(rustradio::block::BlockRet::EOF) => return Err("EOF while the connection is open and data is queued".into()),
+                    Ok(_) => {}
+                    Err(e) => return Err(format!("work: {e}")),
                 }
             }
         }
@@ -745,4 +824,4 @@ impl C14 {
     }
 }
 
-const RULE: &str = "generated: (a) Sample::parse/serialize/size on raw bit patterns for u8,u32,i32,f32,Complex; (b) FileSink(Overwrite) -> file -> FileSource for every type, onto a fresh path or over an older, longer or shorter file, 0..14k samples of arbitrary bit patterns, both sides under drip schedules on 1-3 page streams; (c) SigMFSource on recording pairs and on tar archives whose members (meta, data, up to 3 unrelated files; every third archive with member paths longer than 100 bytes) are written in a generated order, plus malformed variants (two metas, missing/duplicate data, wrong datatype, garbage meta) that must be rejected with Err; (d) AuEncode -> AuDecode on x in [-1,1] (and some saturating values) under drip schedules on both blocks, and AuDecode on the repository's testdata/aprs.au; (e) read segmentation: FileSource on a FIFO and TcpSource on a loopback connection whose writer releases generated chunk sizes (1-byte chunks and splits inside a sample included; the harness paces on FIONREAD / TIOCOUTQ so the single-threaded blocking reads always find data). On the FIFO the source must not report a wait on its (empty) output while more data can come. Oracle: independent little-endian / big-endian PCM16 readers of the same bytes; exact sample sequences and counts (trailing partial sample dropped); encoder bytes == documented 28-byte header + PCM16. Non-trivial: a split inside a sample, or a stream longer than one capacity, or an archive with >= 3 members in non-canonical order, or a malformed container; distinct = hash of the case.";
+const RULE: &str = "generated: (a) Sample::parse/serialize/size on raw bit patterns for u8,u32,i32,f32,Complex; (b) FileSink(Overwrite) -> file -> FileSource for every type, onto a fresh path or over an older, longer or shorter file, 0..14k samples of arbitrary bit patterns, both sides under drip schedules on 1-3 page streams; (c) SigMFSource on recording pairs and on tar archives whose members (meta, data, up to 3 unrelated members - plain files, directories, symbolic and hard links, fifos, pax global headers; every third archive with member paths longer than 100 bytes) are written in a generated order, plus malformed variants (two metas, missing/duplicate data, wrong datatype, garbage meta) that must be rejected with Err; (d) AuEncode -> AuDecode on x in [-1,1] (and some saturating values) under drip schedules on both blocks, and AuDecode on the repository's testdata/aprs.au; (e) read segmentation: FileSource on a FIFO and TcpSource on a loopback connection whose writer releases generated chunk sizes (1-byte chunks and splits inside a sample included; the harness paces on FIONREAD / TIOCOUTQ so the single-threaded blocking reads always find data). On the FIFO the source must not report a wait on its (empty) output while more data can come. Oracle: independent little-endian / big-endian PCM16 readers of the same bytes; exact sample sequences and counts (trailing partial sample dropped); encoder bytes == documented 28-byte header + PCM16. Non-trivial: a split inside a sample, or a stream longer than one capacity, or an archive with >= 3 members in non-canonical order, or a malformed container; distinct = hash of the case.";
